@@ -218,6 +218,44 @@ def fourier_resample(f, zoom):
     return fprime
 
 
+def fourier_resample_backprop(fbar, zoom, in_shape):
+    """Gradient backpropagation through fourier_resample.
+
+    Parameters
+    ----------
+    fbar : ndarray
+        ndim 2 ndarray, floating point dtype; gradient backpropagated up to
+        the return of fourier_resample
+    zoom : float
+        zoom factor that was given to fourier_resample
+    in_shape : tuple of int
+        shape of the array that was given to fourier_resample
+
+    Returns
+    -------
+    ndarray
+        gradient backpropagated to the input of fourier_resample, of shape in_shape
+
+    """
+    if zoom == 1:
+        return fbar
+
+    if isinstance(zoom, (float, int)):
+        zoom = (zoom, zoom)
+    elif not isinstance(zoom, tuple):
+        zoom = tuple(float(zoom) for zoom in zoom)
+
+    m, n = in_shape
+    # fourier_resample is real(idft2(fftshift(fft2(ifftshift(f))))) * scale;
+    # apply the conjugate transpose of each step in reverse order
+    Fbar = mdft.idft2_backprop(fbar, zoom, (m, n))
+    Fbar *= (zoom[0]*zoom[1])/(np.sqrt(m*n))
+    # conjugate transpose of the unnormalized fft2 is ifft2 * (m*n)
+    out = fft.fftshift(fft.ifft2(fft.ifftshift(Fbar))).real
+    out *= (m*n)
+    return out
+
+
 class MatrixDFTExecutor:
     """MatrixDFTExecutor is an engine for performing matrix triple product DFTs as fast as possible."""
 
